@@ -490,7 +490,7 @@ func (c *CqlServerConnection) outgoingLoop() {
 	outgoingChan := c.outgoing
 	go func() {
 		abort := false
-		for !c.IsClosed() {
+		for !abort && !c.IsClosed() {
 			if outgoing, ok := <-outgoingChan; !ok {
 				if !c.IsClosed() {
 					log.Error().Msgf("%v: outgoing frame channel was closed unexpectedly, closing connection", c)
